@@ -5,7 +5,10 @@ pub mod c04;
 pub mod c09;
 pub mod c10;
 pub mod c13;
+pub mod c14;
+pub mod c15;
 pub mod c16;
+pub mod c17;
 pub mod conn;
 pub mod notif;
 
@@ -27,7 +30,10 @@ pub fn all() -> Vec<Arc<dyn Prop>> {
         Arc::new(notif::NotifProp { id: "C11" }),
         Arc::new(notif::NotifProp { id: "C12" }),
         Arc::new(c13::C13),
+        Arc::new(c14::C14),
+        Arc::new(c15::C15),
         Arc::new(c16::C16),
+        Arc::new(c17::C17),
     ]
 }
 
